@@ -104,7 +104,7 @@ func (l *Lexer) readLeadingComments() {
 			l.ReadChar()
 
 			var comment strings.Builder
-			for l.CurrentChar != '\n' && l.CurrentChar != 0 {
+			for l.CurrentChar != '\n' && l.position < len(l.input) {
 				comment.WriteByte(l.CurrentChar)
 				l.ReadChar()
 			}
